@@ -206,7 +206,8 @@ class Folder(FileSystemItemABC):
             if file.name == file_name:
                 return file
         if include_deleted:
-            for file in self.deleted_files.values():
+            # of several deleted files of that name, the one deleted last
+            for file in reversed(list(self.deleted_files.values())):
                 if file.name == file_name:
                     return file
         return None
